@@ -292,7 +292,7 @@ def frame_of(payload):
     return df
 
 
-def mixed(rng, outcome, missing):
+def mixed(rng, outcome, missing, proportion=None):
     for _ in range(20):
         df, meta = datagen.mixed_frame(rng, n=rng.randint(60, 160), outcome=outcome, missing=missing,
                                        n_cont=rng.choice([1, 2]), n_cat=rng.choice([1, 2]))
@@ -305,6 +305,10 @@ def mixed(rng, outcome, missing):
             ok = ok and pd.crosstab(obs['A'], obs['Y']).values.min() >= 4
         if ok:
             break
+    if outcome == 'normal' and (proportion if proportion is not None else rng.random() < 0.35):
+        # the unit and origin of a continuous outcome are arbitrary: here a proportion strictly inside (0, 1)
+        y = df['Y']
+        df['Y'] = np.round(0.21 + 0.57 * (y - y.min()) / (y.max() - y.min()), 5)
     df['_rid_'] = np.arange(len(df))
     cont = [c for c in df.columns if c.startswith('W')]
     cats = [c for c in df.columns if c.startswith('C')]
@@ -589,6 +593,7 @@ def cfg_for(cls, cfg, tr):
 IPTW_COMBOS = [('exposed', True, False), ('unexposed', True, True), ('population', True, True), ('unexposed', True, False),
                ('exposed', False, False), ('population', False, False), ('exposed', True, True), ('unexposed', False, False)]
 IPTW_SEQ = [0]
+CONT_SEQ = {}
 
 
 def gen_case(rng, cls):
@@ -597,7 +602,13 @@ def gen_case(rng, cls):
         outcome = rng.choice(['binary', 'normal']) if cls != 'GEstimationSNM' else rng.choice(['normal', 'normal', 'binary'])
         can_miss = cls in ('IPTW', 'AIPTW', 'TMLE', 'GEstimationSNM', 'TimeFixedGFormula')
         missing = rng.choice([None, None, 'mar']) if can_miss else None
-        df, meta, spec = mixed(rng, outcome, missing)
+        prop = None
+        if cls in ('TMLE', 'AIPTW', 'TimeFixedGFormula'):
+            # the first case of each of these classes: a continuous outcome that is a proportion inside (0, 1)
+            CONT_SEQ[cls] = CONT_SEQ.get(cls, 0) + 1
+            if CONT_SEQ[cls] == 1:
+                outcome, prop = 'normal', True
+        df, meta, spec = mixed(rng, outcome, missing, prop)
         cfg = {'rhs': meta['rhs'], 'n': meta['n'], 'continuous': outcome == 'normal', 'outcome': outcome, 'missing': missing,
                'q': 'A + ' + meta['rhs']}
         if cls in ('IPTW', 'TimeFixedGFormula'):
